@@ -84,7 +84,7 @@ def run(rep, tier):
     mods = struct_check.corpus()
     if tier == "quick":
         slow = ("testdata/dynamic_size.emb", "testdata/bcd.emb", "testdata/int_sizes.emb")  # thorough only
-        mods = [m for m in mods if (m[0] in c01.QUICK_MODULES and m[0] not in slow) or not m[0].startswith("testdata/")]
+        mods = [m for m in mods if (m[0] in c01.QUICK_MODULES and m[0] not in slow) or struct_check.in_quick_corpus(m[0])]
     results = struct_check.run_corpus(struct_check.check_module_c03, {"nmax": 12 if tier == "quick" else 32}, mods)
     out = {"structures": 0, "write_entry_points": 0, "queries": 0, "obligations": 0, "unsat": 0, "witnesses": 0, "replayed": 0,
            "skipped": [], "not_encoded": []}
